@@ -3,13 +3,7 @@ from __future__ import annotations
 
 import ast
 
-from ..flow import enumerate_paths
-from ..source import norm, const_value, walk_no_nested
-from ..specs import operators as optab
-from . import coretypes as ct
 from . import array_folds as af
-from .common import calls_in, is_name, params, single_return, root_name, returns_of
-from .units_rules import check_wrap_helpers
 
 from . import quantity_stack as qs
 
